@@ -21,7 +21,8 @@ META = {
         "records accepted before the call; each retry decision yields an accepted RETRY whose NextAttemptDelaySeconds = "
         "max(1, decided delay); #RETRY <= max_attempts-1; a re-attempt is entered only when the backend shows the step "
         "READY/STARTED (timer fired); absent mid-attempt crashes the function runs exactly min(failures+1, max_attempts) "
-        "times; on decline FAIL is recorded. (b) Pure half: create_retry_strategy over generated configs (max_attempts "
+        "times; on decline FAIL is recorded; a fixed family of at-most-once steps (table / packaged / no retry, top level, child, "
+        "branch) is run with crashes on entry of the first attempt, of a retry attempt, and of both. (b) Pure half: create_retry_strategy over generated configs (max_attempts "
         "1-64, delays 0-3600 s, rate 1-10, all jitters, message/type filters) x attempts x errors with random.random fed "
         "from drawn floats (incl. 0.0 and 1-eps): should_retry <=> attempts<max and filter matches; delay == max(1, "
         "ceil(jitter(min(initial*rate^(n-1), max_delay)))) for the drawn sample, hence within [1, max(1, max_delay)]; the same law "
@@ -210,7 +211,36 @@ def _pure_stage(ctx):
     t2()
 
 
-install(globals(), props=("C12",), cases=cases, nontrivial=nontrivial, classes=classes, stages=(_pure_stage,))
+def _interrupted_stage(ctx):
+    """Construction instead of luck: at-most-once steps (decision table and packaged strategies) whose attempts are cut
+    short by a crash on entry of the user function - in the first attempt, in a retry attempt, in both - at top level and
+    inside a child context / parallel branch."""
+    from .. import wfcheck as WC
+
+    def most(retry, k=1):
+        return {"op": "step", "beh": {"kind": "fail_then_ret", "k": k, "err": "UserError", "v": 1}, "sem": "most", "retry": retry}
+
+    table = {"kind": "table", "max": 3, "delays": [1, 2], "nonretry": []}
+    cfg = {"kind": "config", "cfg": {"max_attempts": 3, "initial": 2, "max_delay": 8, "rate": 2, "jitter": "NONE", "types": None, "errors": None}}
+    none = {"kind": "none"}
+    bases = []
+    for retry in (table, cfg, none, {**table, "direct": True}):
+        bases += [[most(retry)], [{"op": "child", "body": [most(retry)]}],
+                  [{"op": "parallel", "branches": [[most(retry)], [most(table, 2)]], "cfg": {"completion": {"min": None, "tol": 2, "pct": None}}}]]
+    plans = [[{"inv": 0, "at": "user", "n": 0}], [{"inv": 1, "at": "user", "n": 0}], [{"inv": 0, "at": "user", "n": 0}, {"inv": 1, "at": "user", "n": 0}],
+             [{"inv": 2, "at": "user", "n": 0}], [{"inv": 0, "at": "api_after", "n": 0}], [{"inv": 1, "at": "api_after", "n": 0}]]
+    n = 0
+    for i, body in enumerate(bases):
+        if ctx.nshards > 1 and i % ctx.nshards != ctx.shard % ctx.nshards:
+            continue
+        for crashes in plans:
+            case = {"prog": {"body": body}, "backend": {"response": "delta"}, "plan": {"crashes": crashes}, "sched": [{"mode": "seq"}], "line": [], "randoms": [0.5]}
+            WC.report_case(ctx, case, PROPS, nontrivial=nontrivial, classes=lambda r, c: ["interrupted-attempt-enumeration"] + classes(r, c))  # noqa: F821
+            n += 1
+    ctx.extra["interrupted_attempt_cases"] = n
+
+
+install(globals(), props=("C12",), cases=cases, nontrivial=nontrivial, classes=classes, stages=(_pure_stage, _interrupted_stage))
 _wf_replay = replay  # noqa: F821
 
 
